@@ -19,10 +19,12 @@ class Blocked(Exception):
 
 
 class VirtualClock:
-    def __init__(self):
+    def __init__(self, tick=0):
         self.t = 0  # units
+        self.tick = tick   # cost of looking at the clock: models the interpreter's own latency (0 in model-compared suites)
 
     def monotonic(self):
+        self.t += self.tick
         return self.t / UNIT
 
     def time(self):
@@ -175,6 +177,8 @@ def sstr_py(s):
         return bytes.fromhex(s["lit"])
     if "str" in s:
         return s["str"]
+    if "raw" in s:
+        return re.compile(s["raw"].encode(), re.M if "M" in s.get("flags", "") else 0)
     return re.compile(re_py(s["re"]))
 
 
@@ -229,6 +233,10 @@ def op_coq(o):
         return f"(OPushStream {coq.z(o[1])} {coq.boolean(o[2])})"
     if k == "pop":
         return "OPop"
+    if k == "pop_at":
+        return f"(OPopAt {coq.nat(o[1])})"
+    if k == "add_death":
+        return f"(OAddDeath {sstr_coq(o[1])} {coq.z(o[2])})"
     if k == "set_blacklist":
         return f"(OSetBlacklist {coq.nlist(o[1])})"
     if k == "set_slow":
@@ -268,7 +276,7 @@ def _exc_obs(e):
 
 def run_script(case, channel_cls=Channel):
     """Execute the script on the real Channel.  Returns the observation mirrored by ChannelCorr.chan_model."""
-    clock = VirtualClock()
+    clock = VirtualClock(case.get("tick", 0))
     sio = ScriptIO([[t, bytes.fromhex(h)] for t, h in case["pieces"]], case.get("accept", []), clock)
     saved_time = chmod.time
     chmod.time = clock
@@ -339,6 +347,13 @@ def run_script(case, channel_cls=Channel):
                 elif k == "pop":
                     if stack:
                         stack.pop().__exit__(None, None, None)
+                    r = [0]
+                elif k == "pop_at":
+                    if o[1] < len(stack):
+                        stack.pop(len(stack) - 1 - o[1]).__exit__(None, None, None)
+                    r = [0]
+                elif k == "add_death":
+                    ch.add_death_string(sstr_py(o[1]), EXC[o[2]])
                     r = [0]
                 elif k == "set_blacklist":
                     ch._write_blacklist = list(o[1])
